@@ -187,6 +187,11 @@ def run(ctx, rep, model=True):
     for i in range(n):
         spec = plotgen.random_spec(ctx.rng, nlev=[1, 2, 3, 4][i % 4] if i % 8 else 4, data=["smallint", "bits", "smallint"][i % 3], B=2,
                                    repeats=(i % 3 == 2), exact=(i % 5 != 4))
+        # lines of the global header that are constant in plotfiles the package writes: coordinate system, per-level steps
+        if i % 4 == 1:
+            spec["coord_sys"] = [1, 2][(i // 4) % 2]; rep.count(f"coordinate-system:{spec['coord_sys']}")
+        if i % 3 == 1 and len(spec["levels"]) >= 2:
+            spec["subcycle"] = True; spec["step"] = [3, 7, 20][(i // 3) % 3]; rep.count("per-level-steps-differ")
         run_spec(ctx, rep, spec, model)
         if i % 6 == 5:
             other = plotgen.random_spec(ctx.rng, ndims=spec["ndims"], nlev=[2, 3, 1][i % 3], nf=len(spec["fields"]), data="smallint", B=2)
